@@ -282,7 +282,8 @@ def build_steps(rng, recs, delim, queries, slot=0, p_incremental=0.35):
             last[side] = val
         else:
             last["ps" if side == "p" else "us"] = [val]
-        clash = [{"op": "init", "dst": slot + 90, "records": recs + [mid, last], "delim": d}]
+        clash = [{"op": "init", "dst": slot + 90, "records": recs + [mid, last], "delim": d,
+                  "container": rng.choice(["list", "tuple", "iter", "generator", "dict_values"])}]
     decoy = []
     if len(recs) >= 2 and rng.random() < 0.12:
         # another converter lives in the same process, with the same strings meaning something else (the prefixes
